@@ -339,6 +339,7 @@ def finish(mod, a, seed, t0, jobs, results, skipped):
     pid = mod.PROPERTY
     known = {k["key"]: k for k in load_known() if k.get("property") == pid}
     problems = []
+    undecided_optional = []
     violations = []
     known_hits = {}
     unconfirmed = []
@@ -353,8 +354,14 @@ def finish(mod, a, seed, t0, jobs, results, skipped):
         solver_time += r.get("solver_time", 0)
         funcs.update(r.get("functions", []))
         for p in r.get("problems", []):
+            if r.get("optional") and p.get("kind") in ("unknown", "vc-unknown", "too-many-undecided-branches"):
+                # a best-effort job the solver did not decide: reported, never counted as explored
+                undecided_optional.append(dict(p, job=r["label"]))
+                continue
             problems.append(dict(p, job=r["label"]))
         for c, n in r.get("canaries", {}).items():
+            if r.get("optional") and n == 0:
+                continue  # a best-effort job may stop before its canaries are reached
             canary_total[(r["label"], c)] = n
         for f in r.get("failures", []):
             key = f.get("key")
@@ -410,6 +417,8 @@ def finish(mod, a, seed, t0, jobs, results, skipped):
         print(l)
     for l in inconclusive:
         print("INCONCLUSIVE: " + l)
+    if undecided_optional:
+        print("UNDECIDED best-effort jobs (not counted as explored): %s" % "; ".join(sorted({p["kind"] + "@" + p["job"] for p in undecided_optional})[:12]))
     for p in problems[:5]:
         print("  problem %s in %s: %s" % (p["kind"], p["job"], (p.get("error") or "")[-800:]))
     for u in unconfirmed[:3]:
@@ -459,6 +468,7 @@ def finish(mod, a, seed, t0, jobs, results, skipped):
                 "solver_queries": tot["queries"],
                 "solver_time_s": round(solver_time, 2),
                 "solver_unknown": len([p for p in problems if p["kind"] in ("unknown", "vc-unknown")]),
+                "best_effort_jobs_undecided": sorted({p["kind"] + "@" + p["job"] for p in undecided_optional})[:60],
                 "canaries": {"%s/%s" % k: n for k, n in list(canary_total.items())[:40]},
                 "canaries_total": len(canary_total),
                 "model_validation_points": tot["model_points"],
